@@ -66,6 +66,7 @@ class Snapshot:
             "SPIL_VERIF": "1",
             "VERIF_SNAP_REPO": self.repo,
             "VERIF_CONF_DIR": conf_dir,
+            "VERIF_WATCHDOG": os.environ.get("VERIF_WATCHDOG", "0"),
             "LANG": "C.UTF-8",
             "LC_ALL": "C.UTF-8",
         }
